@@ -24,6 +24,11 @@ import spec as S
 from rules_routing import sym_msb_first, result_int
 
 
+TRUSTED = ['rustc MIR construction and callee resolution', 'transfer functions of the symbolic bit-vector domain (and/or/xor/not/shifts/casts exact; add/sub by three-valued ripple carry; negation with known lowest set bit)',
+           'the encoding-string formulation of the posit rule (cross-checked against the exact rational oracle on a random completion of every cell)',
+           'may-mode path enumeration treats a path as infeasible only after interval / known-bit refinement empties it']
+
+
 def lit(j):
     return ('x', 0, j, False)
 
